@@ -10,6 +10,7 @@
 // props leaf_lalr_acceptance: C04       (a well-formed file is accepted iff the LALR(1) automaton built here from the definition - canonical LR(1) collection, states merged by core - has no conflict)
 // props leaf_lalr_conflict_report: C11   (a table-conflict error: the attached automaton is that LALR(1) automaton up to renumbering, the state exists, holds both items, and they demand different actions on one lookahead)
 // props leaf_lalr_tables: C17           (ACTION/GOTO rows read back from the emitted text against that automaton up to renumbering of states: shift, goto, reduce on the lookahead sets, accept, error elsewhere)
+// props leaf_parser_tables: C09          (every ACTION / GOTO cell of the checked-in front-end parser kiki/src/parser.rs against the LALR(1) automaton by definition of the published grammar kiki/src/parser.kiki)
 // props leaf_emitted_structure: C06     (type section and parse signature of the emitted text, parsed back, against the declarations: names, order, Box, `_` omitted, pub)
 // props leaf_emitted_attributes: C12    (attribute lines before each emitted type, byte for byte and in order; each attribute text occurs exactly once in the emitted text)
 // props leaf_emitted_payload_types: C13 (payload type tokens in the terminal enum and in every field of that terminal, against the declaration)
@@ -22,6 +23,7 @@
 // covers leaf_lalr_acceptance: fn generate
 // covers leaf_lalr_conflict_report: fn generate
 // covers leaf_lalr_tables: fn generate
+// covers leaf_parser_tables: fn parse
 // covers leaf_emitted_structure: fn generate
 // covers leaf_emitted_attributes: fn generate
 // covers leaf_emitted_payload_types: fn generate
@@ -1484,7 +1486,7 @@ mod __vx_leafcheck {
     /// rows of a table in the emitted text: the lines from the one that declares `name` to the closing `];`, split into entries
     fn emitted_rows(out: &str, name: &str) -> Option<Vec<Vec<Vec<String>>>> {
         let lines: Vec<&str> = out.lines().collect();
-        let at = lines.iter().position(|l| l.starts_with("static ") && l.contains(name) && l.trim_end().ends_with('['))?;
+        let at = lines.iter().position(|l| (l.starts_with("static ") || l.starts_with("const ")) && l.contains(name) && l.trim_end().ends_with('['))?;
         let end = at + lines[at..].iter().position(|l| l.starts_with("];"))?;
         let toks = rust_tokens(&lines[at + 1..end].join("\n"));
         let mut rows = vec![];
@@ -1523,73 +1525,106 @@ mod __vx_leafcheck {
         t.iter().rev().find_map(|x| x.strip_prefix(prefix).and_then(|d| d.parse::<usize>().ok()))
     }
 
+    /// ACTION / GOTO rows read back from `out` against the LALR(1) automaton (states, trans, start) of `g`, up to renumbering of states
+    fn check_tables(leaf: &str, label: &str, g: &Gram, states: &[BTreeSet<It>], trans: &BTreeMap<(usize, Sy), usize>, start: usize, out: &str) {
+        let unreadable = |what: &str| -> ! { panic!("{}: {} of the text cannot be read back for {}", leaf, what, label) };
+        let Some(actions) = emitted_rows(out, "ACTION_TABLE") else { unreadable("the action table") };
+        let Some(gotos) = emitted_rows(out, "GOTO_TABLE") else { unreadable("the goto table") };
+        let Some(tcol) = emitted_numbering(out, &g.terms, 1) else { unreadable("the numbering of terminal kinds") };
+        let ncol = if g.nts.len() == g.terms.len() + 1 && g.nts.iter().all(|x| tcol.contains_key(x)) { unreadable("the numbering of nonterminal kinds (same names as the terminal kinds)") } else { emitted_numbering(out, &g.nts, 0) };
+        let Some(ncol) = ncol else { unreadable("the numbering of nonterminal kinds") };
+        let eof_col = (0..=g.terms.len()).find(|c| !g.terms.iter().any(|t| tcol[t] == *c));
+        let Some(eof_col) = eof_col else { unreadable("the end-of-input column") };
+        let Some(start_line) = out.lines().find(|l| l.contains("let mut states = vec![")) else { unreadable("the start state") };
+        let Some(their_start) = trailing_number(&rust_tokens(start_line), 'S') else { unreadable("the start state") };
+        let fail = |got: String, want: String| {
+            println!("LEAFCHECK-FAIL leaf={} input={} got={} want={}", leaf, label, got, want);
+            panic!("emitted tables differ from the LALR(1) automaton");
+        };
+        if actions.len() != states.len() || gotos.len() != states.len() { fail(format!("{} action rows, {} goto rows", actions.len(), gotos.len()), format!("{} states (one per reachable LR(0) core)", states.len())); }
+        // walk both automata from their start states
+        let mut to_ref: BTreeMap<usize, usize> = [(their_start, start)].into_iter().collect();
+        let mut work = vec![their_start];
+        let dem = demands(&g, &states);
+        while let Some(s) = work.pop() {
+            let r = to_ref[&s];
+            let (Some(arow), Some(grow)) = (actions.get(s), gotos.get(s)) else { fail(format!("state S{} out of range", s), format!("{} states", states.len())); unreachable!() };
+            if arow.len() != g.terms.len() + 1 || grow.len() != g.nts.len() { fail(format!("rows of {} actions and {} gotos", arow.len(), grow.len()), format!("{} and {}", g.terms.len() + 1, g.nts.len())); }
+            let mut link = |their_to: usize, ref_to: Option<usize>, what: String, to_ref: &mut BTreeMap<usize, usize>, work: &mut Vec<usize>| {
+                match ref_to {
+                    None => fail(format!("state S{}: {} to S{}", s, what, their_to), "no such transition in the LALR(1) automaton".to_string()),
+                    Some(rt) => match to_ref.get(&their_to) {
+                        Some(x) => if *x != rt { fail(format!("state S{}: {} to S{}, which stands for another state", s, what, their_to), "the transition of the LALR(1) automaton".to_string()) },
+                        None => { if to_ref.values().any(|x| *x == rt) { fail(format!("state S{}: {} to S{}: two emitted states for one LALR(1) state", s, what, their_to), "one state per core".to_string()); } to_ref.insert(their_to, rt); work.push(their_to); }
+                    },
+                }
+            };
+            for la in 0..=g.terms.len() {
+                let col = if la == g.terms.len() { eof_col } else { tcol[&g.terms[la]] };
+                let e = &arow[col];
+                let want: Option<Act> = dem[r].get(&la).and_then(|a| a.iter().next().cloned());
+                let la_name = if la == g.terms.len() { "end of input".to_string() } else { format!("${}", g.terms[la]) };
+                if dem[r].get(&la).map_or(0, |a| a.len()) > 1 {
+                    fail(format!("a table for a grammar whose LALR(1) automaton demands {:?} in one cell (state S{}, {})", dem[r][&la], s, la_name), "no table: reduce entries exactly on the lookahead sets cannot hold here".to_string());
+                }
+                let kind = ["Shift", "Reduce", "Accept", "Err"].iter().find(|k| e.iter().any(|t| t == *k)).cloned();
+                match (kind, want) {
+                    (Some("Shift"), Some(Act::Shift)) => { let Some(to) = trailing_number(e, 'S') else { unreadable("a shift entry") }; link(to, trans.get(&(r, Sy::T(la))).cloned(), format!("shift on {}", la_name), &mut to_ref, &mut work); }
+                    (Some("Reduce"), Some(Act::Reduce(k))) => { let Some(rk) = trailing_number(e, 'R') else { unreadable("a reduce entry") }; if rk != k { fail(format!("state S{}, {}: reduce by rule {}", s, la_name, rk), format!("reduce by rule {}", k)); } }
+                    (Some("Accept"), Some(Act::Accept)) => {}
+                    (Some("Err"), None) => {}
+                    (None, _) => unreadable("an action entry"),
+                    (Some(k), w) => fail(format!("state S{}, {}: {}", s, la_name, e.join("")), format!("{:?} (None = error)", w).replace("Some(", "").replace(k, k)),
+                }
+            }
+            for (ni, name) in g.nts.iter().enumerate() {
+                let e = &grow[ncol[name]];
+                let want = trans.get(&(r, Sy::N(ni))).cloned();
+                if e.iter().any(|t| t == "None") { if want.is_some() { fail(format!("state S{}: no goto on {}", s, name), "the goto of the LALR(1) automaton".to_string()); } }
+                else if e.iter().any(|t| t == "Some") { let Some(to) = trailing_number(e, 'S') else { unreadable("a goto entry") }; link(to, want, format!("goto on {}", name), &mut to_ref, &mut work); }
+                else { unreadable("a goto entry") }
+            }
+        }
+        if to_ref.len() != states.len() { fail(format!("{} states reachable in the emitted tables", to_ref.len()), format!("{}", states.len())); }
+    }
+
     #[test]
     fn leaf_lalr_tables() {
         let mut n = 0usize;
         for (text, g, (states, trans, start)) in lalr_cases() {
             let Some(Ok(out)) = run(&text) else { continue };
-            let out = out.0;
-            let unreadable = |what: &str| -> ! { panic!("generate(lalr-tables): {} of the emitted text cannot be read back for {}", what, brief(&text)) };
-            let Some(actions) = emitted_rows(&out, "ACTION_TABLE") else { unreadable("the action table") };
-            let Some(gotos) = emitted_rows(&out, "GOTO_TABLE") else { unreadable("the goto table") };
-            let Some(tcol) = emitted_numbering(&out, &g.terms, 1) else { unreadable("the numbering of terminal kinds") };
-            let ncol = if g.nts.len() == g.terms.len() + 1 && g.nts.iter().all(|x| tcol.contains_key(x)) { unreadable("the numbering of nonterminal kinds (same names as the terminal kinds)") } else { emitted_numbering(&out, &g.nts, 0) };
-            let Some(ncol) = ncol else { unreadable("the numbering of nonterminal kinds") };
-            let eof_col = (0..=g.terms.len()).find(|c| !g.terms.iter().any(|t| tcol[t] == *c));
-            let Some(eof_col) = eof_col else { unreadable("the end-of-input column") };
-            let Some(start_line) = out.lines().find(|l| l.contains("let mut states = vec![")) else { unreadable("the start state") };
-            let Some(their_start) = trailing_number(&rust_tokens(start_line), 'S') else { unreadable("the start state") };
-            let fail = |got: String, want: String| {
-                println!("LEAFCHECK-FAIL leaf=generate(lalr-tables) input={} got={} want={}", brief(&text), got, want);
-                panic!("emitted tables differ from the LALR(1) automaton");
-            };
-            if actions.len() != states.len() || gotos.len() != states.len() { fail(format!("{} action rows, {} goto rows", actions.len(), gotos.len()), format!("{} states (one per reachable LR(0) core)", states.len())); }
-            // walk both automata from their start states
-            let mut to_ref: BTreeMap<usize, usize> = [(their_start, start)].into_iter().collect();
-            let mut work = vec![their_start];
-            let dem = demands(&g, &states);
-            while let Some(s) = work.pop() {
-                let r = to_ref[&s];
-                let (Some(arow), Some(grow)) = (actions.get(s), gotos.get(s)) else { fail(format!("state S{} out of range", s), format!("{} states", states.len())); unreachable!() };
-                if arow.len() != g.terms.len() + 1 || grow.len() != g.nts.len() { fail(format!("rows of {} actions and {} gotos", arow.len(), grow.len()), format!("{} and {}", g.terms.len() + 1, g.nts.len())); }
-                let mut link = |their_to: usize, ref_to: Option<usize>, what: String, to_ref: &mut BTreeMap<usize, usize>, work: &mut Vec<usize>| {
-                    match ref_to {
-                        None => fail(format!("state S{}: {} to S{}", s, what, their_to), "no such transition in the LALR(1) automaton".to_string()),
-                        Some(rt) => match to_ref.get(&their_to) {
-                            Some(x) => if *x != rt { fail(format!("state S{}: {} to S{}, which stands for another state", s, what, their_to), "the transition of the LALR(1) automaton".to_string()) },
-                            None => { if to_ref.values().any(|x| *x == rt) { fail(format!("state S{}: {} to S{}: two emitted states for one LALR(1) state", s, what, their_to), "one state per core".to_string()); } to_ref.insert(their_to, rt); work.push(their_to); }
-                        },
-                    }
-                };
-                for la in 0..=g.terms.len() {
-                    let col = if la == g.terms.len() { eof_col } else { tcol[&g.terms[la]] };
-                    let e = &arow[col];
-                    let want: Option<Act> = dem[r].get(&la).and_then(|a| a.iter().next().cloned());
-                    let la_name = if la == g.terms.len() { "end of input".to_string() } else { format!("${}", g.terms[la]) };
-                    if dem[r].get(&la).map_or(0, |a| a.len()) > 1 {
-                        fail(format!("a table for a grammar whose LALR(1) automaton demands {:?} in one cell (state S{}, {})", dem[r][&la], s, la_name), "no table: reduce entries exactly on the lookahead sets cannot hold here".to_string());
-                    }
-                    let kind = ["Shift", "Reduce", "Accept", "Err"].iter().find(|k| e.iter().any(|t| t == *k)).cloned();
-                    match (kind, want) {
-                        (Some("Shift"), Some(Act::Shift)) => { let Some(to) = trailing_number(e, 'S') else { unreadable("a shift entry") }; link(to, trans.get(&(r, Sy::T(la))).cloned(), format!("shift on {}", la_name), &mut to_ref, &mut work); }
-                        (Some("Reduce"), Some(Act::Reduce(k))) => { let Some(rk) = trailing_number(e, 'R') else { unreadable("a reduce entry") }; if rk != k { fail(format!("state S{}, {}: reduce by rule {}", s, la_name, rk), format!("reduce by rule {}", k)); } }
-                        (Some("Accept"), Some(Act::Accept)) => {}
-                        (Some("Err"), None) => {}
-                        (None, _) => unreadable("an action entry"),
-                        (Some(k), w) => fail(format!("state S{}, {}: {}", s, la_name, e.join("")), format!("{:?} (None = error)", w).replace("Some(", "").replace(k, k)),
-                    }
-                }
-                for (ni, name) in g.nts.iter().enumerate() {
-                    let e = &grow[ncol[name]];
-                    let want = trans.get(&(r, Sy::N(ni))).cloned();
-                    if e.iter().any(|t| t == "None") { if want.is_some() { fail(format!("state S{}: no goto on {}", s, name), "the goto of the LALR(1) automaton".to_string()); } }
-                    else if e.iter().any(|t| t == "Some") { let Some(to) = trailing_number(e, 'S') else { unreadable("a goto entry") }; link(to, want, format!("goto on {}", name), &mut to_ref, &mut work); }
-                    else { unreadable("a goto entry") }
-                }
-            }
-            if to_ref.len() != states.len() { fail(format!("{} states reachable in the emitted tables", to_ref.len()), format!("{}", states.len())); }
+            check_tables("generate(lalr-tables)", &brief(&text), &g, &states, &trans, start, &out.0);
             n += 1;
         }
         println!("LEAFCHECK leaf=generate(lalr-tables) cases={}", n);
+    }
+
+    /// the token texts of a source file, through the real lexer (whose behaviour is the subject of C08)
+    fn lexed_tokens(src: &str) -> Option<Vec<String>> {
+        use crate::data::token::Token;
+        let toks = crate::pipeline::tokenize::tokenize(src).ok()?;
+        Some(toks.iter().map(|t| match t {
+            Token::Underscore(_) => "_".to_string(), Token::Ident(i) => i.name.clone(), Token::TerminalIdent(t) => format!("${}", t.name.raw()), Token::OuterAttribute(a) => a.src.clone(),
+            Token::StartKw(_) => "start".into(), Token::StructKw(_) => "struct".into(), Token::EnumKw(_) => "enum".into(), Token::TerminalKw(_) => "terminal".into(), Token::Colon(_) => ":".into(),
+            Token::DoubleColon(_) => "::".into(), Token::Comma(_) => ",".into(), Token::LParen(_) => "(".into(), Token::RParen(_) => ")".into(), Token::LCurly(_) => "{".into(), Token::RCurly(_) => "}".into(),
+            Token::LAngle(_) => "<".into(), Token::RAngle(_) => ">".into(),
+        }).collect())
+    }
+
+    /// C09: the front end's own parser (kiki/src/parser.rs, a checked-in generated file) carries the tables of the published grammar
+    /// (kiki/src/parser.kiki): every ACTION and GOTO cell against the LALR(1) automaton of that grammar, up to renumbering of states
+    #[test]
+    fn leaf_parser_tables() {
+        let grammar = include_str!("parser.kiki");
+        let parser = include_str!("parser.rs");
+        let toks = lexed_tokens(grammar).expect("parser.kiki must lex");
+        let pos: Vec<usize> = (0..toks.len()).collect();
+        let file = read_file(&toks, &pos).expect("parser.kiki must be readable");
+        assert!(well_formed(&file), "parser.kiki must be well-formed");
+        let g = grammar_of(&file);
+        let (states, trans, start) = g.lalr();
+        assert!(!has_conflict(&g, &states), "the published grammar must be LALR(1)");
+        check_tables("parser.rs(tables)", "kiki/src/parser.rs against kiki/src/parser.kiki", &g, &states, &trans, start, parser);
+        println!("LEAFCHECK leaf=parser.rs(tables) cases={}", states.len() * (g.terms.len() + 1 + g.nts.len()));
     }
 }
